@@ -65,7 +65,7 @@ def rand_wops(r, default_name):
 def default_name(sd):
     if sd["form"] == "str":
         return hgm.expr_rec(sd["e"], "names")
-    if sd["form"] == "def":
+    if sd["form"] in ("def", "defg"):
         return sd.get("fname", "myfn")
     return None
 
@@ -173,6 +173,29 @@ def names_of(ws):
     return [w[1] for w in ws if w != "ser" and w != "cached"]
 
 
+def arity_probe(sd, ws):
+    """calls with a different NUMBER of positional arguments (a function with a default argument),
+    on the implementation only: every call of the wrapper must return what the function returns"""
+    import histogrammar as hg
+    if sd["form"] == "str" or len(names_of(ws)) > 1:
+        return None
+    body = hgm.expr_rec(sd["e"], "scalar")
+    raw = eval("lambda x, k=1.0: (%s) * k" % body, {"float": float})
+    try:
+        w = hgm.apply_wops(raw, ws)
+    except Exception:  # noqa: BLE001
+        return None
+    calls = [(3.0, 2.0), (3.0,), (3.0, 2.0), (3.0, 1.0), (3.0,), (0.5,), (0.5, 4.0), (0.5,)]
+    for k, args in enumerate(calls):
+        try:
+            got, ref = w(*args), raw(*args)
+        except Exception as e:  # noqa: BLE001
+            return "call %d %r raised %s" % (k, args, type(e).__name__)
+        if not (got == ref or (got != got and ref != ref)):
+            return "call %d %r: wrapper %r, function %r" % (k, args, got, ref)
+    return None
+
+
 def oracle(p, run, exact):
     meta = p.get("meta")
     if not meta:
@@ -180,6 +203,13 @@ def oracle(p, run, exact):
     obs = run["obs"]
     m = run["machine"]
     fails = []
+    for o in p["ops"]:
+        if o[0] == "wrap" and o[4] == "scalar":
+            d = arity_probe(o[1], o[2])
+            if d:
+                fails.append({"clause": "a wrapped function returns on every call what the function returns (calls with and "
+                                        "without the defaulted argument)  [C17_calls]", "wrappers": o[2], "diff": d})
+                break
     wl = iter(getattr(m, "wraplog", []))
     prev = None
     for log in getattr(m, "arrlog", []):
